@@ -126,6 +126,13 @@ macro_rules! family {
                     self.uq.push(q);
                     self.produced += 1;
                 }
+                /// a quaternion that has to be unit, observed but not pooled
+                pub fn c_uq(&mut self, what: &str, q: $Q) {
+                    self.oq(q);
+                    if !q.is_normalized() && self.invalid_pool.is_none() {
+                        self.invalid_pool = Some(format!("{what} produced {:?} which does not pass is_normalized (|q|^2 = {:?})", q, q.length_squared()));
+                    }
+                }
                 pub fn p_rm3(&mut self, what: &str, m: $M3) {
                     self.om3(m);
                     if !(m.x_axis.is_normalized() && m.y_axis.is_normalized() && m.z_axis.is_normalized()) && self.invalid_pool.is_none() {
@@ -438,8 +445,37 @@ macro_rules! family {
                             s.oq(qn.lerp(p, unit_s(c)));
                             s.oq(qn * p);
                         }
+                        // (c) directions that are unit by `is_normalized` but not to rounding are valid arguments of the arc
+                        // constructors; away from the (anti)parallel special cases the result has to be a unit quaternion
+                        {
+                            let (a, _) = uv3(c, s);
+                            let (b0, _) = uv3(c, s);
+                            let b = if c.idx(2) == 0 { b0 } else { (-a + seed_v3(c) * (c.r(0.02, 0.3) as F)).normalize() };
+                            let m1 = 1e-6 * (90.0f64).powf(c.r(0.0, 1.0));
+                            let m2 = 1e-6 * (90.0f64).powf(c.r(0.0, 1.0));
+                            let an = a * (1.0 + if c.idx(2) == 0 { m1 } else { -m1 }) as F;
+                            let bn = b * (1.0 + if c.idx(2) == 0 { m2 } else { -m2 }) as F;
+                            if an.is_normalized() && bn.is_normalized() && b.is_finite() {
+                                let d = an.dot(bn);
+                                let general = d.abs() < 0.99;
+                                let q1 = $Q::from_rotation_arc(an, bn);
+                                let q2 = $Q::from_rotation_arc_colinear(an, bn);
+                                if general {
+                                    s.c_uq("Quat::from_rotation_arc(directions unit within the documented tolerance)", q1);
+                                    s.c_uq("Quat::from_rotation_arc_colinear(directions unit within the documented tolerance)", q2);
+                                } else {
+                                    s.oq(q1);
+                                    s.oq(q2);
+                                }
+                                let v = seed_v3(c);
+                                s.oq($Q::from_axis_angle(an, angle(c)));
+                                s.o3(v.project_onto_normalized(an));
+                                s.o3(v.reject_from_normalized(an));
+                                s.o3(v.reflect(an));
+                            }
+                        }
                         if fed { s.consumer_steps_on_produced += 1; }
-                        "negated end points; nearly-unit quaternions"
+                        "negated end points; nearly-unit quaternions and directions"
                     }
                     _ => { let (q, fed) = uq(c, s); if let Some(a) = pick(c, &s.a3) { let _ = a; } let m = $M3::from_quat(q); s.oq($Q::from_mat3(&m)); let m4_ = $M4::from_quat(q); s.oq($Q::from_mat4(&m4_)); if fed { s.consumer_steps_on_produced += 1; } "quat<->mat round trip" }
                 }
@@ -525,6 +561,38 @@ macro_rules! family {
                 t!("Mat4::transform_point3(non-affine)", $M4::perspective_rh(1.0, 1.5, 0.1, 100.0).transform_point3(v));
                 t!("Mat4::transform_vector3(non-affine)", $M4::perspective_rh(1.0, 1.5, 0.1, 100.0).transform_vector3(v));
                 t!("Mat4::from_scale(zero)", $M4::from_scale($V3::ZERO));
+
+                // the clamp family of every float vector type of the family, every documented way to violate its bounds
+                // (generated magnitudes): negative min with a positive / zero / negative max, min > max, one lane of clamp
+                {
+                    let neg = -(c.r(0.01, 3.0) as F);
+                    let neg2 = neg - c.r(0.01, 3.0) as F;
+                    let pos = c.r(0.01, 3.0) as F;
+                    let pos2 = pos + c.r(0.01, 3.0) as F;
+                    macro_rules! clampfam {
+                        ($tn:literal, $V:ty, $n:expr, $val:expr) => {{
+                            let x: $V = $val;
+                            t!(concat!($tn, "::clamp_length(negative min, positive max)"), x.clamp_length(neg, pos));
+                            t!(concat!($tn, "::clamp_length(negative min, zero max)"), x.clamp_length(neg, 0.0));
+                            t!(concat!($tn, "::clamp_length(both negative, min < max)"), x.clamp_length(neg2, neg));
+                            t!(concat!($tn, "::clamp_length(min > max, both positive)"), x.clamp_length(pos2, pos));
+                            t!(concat!($tn, "::clamp_length_max(negative)"), x.clamp_length_max(neg));
+                            t!(concat!($tn, "::clamp_length_min(negative)"), x.clamp_length_min(neg));
+                            for lane in 0..$n {
+                                let lo = <$V>::splat(neg);
+                                let mut hi = <$V>::splat(pos);
+                                hi[lane] = neg2;
+                                t!(concat!($tn, "::clamp(min > max in one lane)"), x.clamp(lo, hi));
+                            }
+                        }};
+                    }
+                    clampfam!("Vec2", $V2, 2, seed_v2(&mut c));
+                    clampfam!("Vec3", $V3, 3, v);
+                    clampfam!("Vec4", $V4, 4, <$V4>::new(v.x, v.y, v.z, pos));
+                    if $f32only {
+                        out.extend(f32only_clamp(v.to_array().map(|x| x as f32), [neg as f32, neg2 as f32, pos as f32, pos2 as f32]));
+                    }
+                }
                 t!("Vec3::clamp(min > max)", v.clamp($V3::splat(1.0), $V3::splat(-1.0)));
                 t!("Vec3::clamp_length(negative min)", v.clamp_length(-1.0, 2.0));
                 t!("Vec3::clamp_length(min > max)", v.clamp_length(2.0, 1.0));
@@ -711,6 +779,31 @@ fn f32only_invalid(q: [f32; 4], k: f32) -> Vec<(&'static str, bool)> {
     t!("Vec3A::any_orthonormal_pair(non-unit)", (n * k).any_orthonormal_pair());
     t!("Vec3A::clamp(min > max)", n.clamp(Vec3A::splat(1.0), Vec3A::splat(-1.0)));
     t!("Vec3A::clamp_length(min > max)", n.clamp_length(2.0, 1.0));
+    out
+}
+
+#[allow(dead_code)]
+fn f32only_clamp(v: [f32; 3], b: [f32; 4]) -> Vec<(&'static str, bool)> {
+    let [neg, neg2, pos, pos2] = b;
+    let x = Vec3A::from_array(v);
+    let mut out: Vec<(&'static str, bool)> = vec![];
+    macro_rules! t {
+        ($n:expr, $e:expr) => {
+            out.push(($n, vcore::catch(|| { let _ = $e; }).is_err()));
+        };
+    }
+    t!("Vec3A::clamp_length(negative min, positive max)", x.clamp_length(neg, pos));
+    t!("Vec3A::clamp_length(negative min, zero max)", x.clamp_length(neg, 0.0));
+    t!("Vec3A::clamp_length(both negative, min < max)", x.clamp_length(neg2, neg));
+    t!("Vec3A::clamp_length(min > max, both positive)", x.clamp_length(pos2, pos));
+    t!("Vec3A::clamp_length_max(negative)", x.clamp_length_max(neg));
+    t!("Vec3A::clamp_length_min(negative)", x.clamp_length_min(neg));
+    for lane in 0..3 {
+        let lo = Vec3A::splat(neg);
+        let mut hi = Vec3A::splat(pos);
+        hi[lane] = neg2;
+        t!("Vec3A::clamp(min > max in one lane)", x.clamp(lo, hi));
+    }
     out
 }
 
